@@ -694,6 +694,57 @@ def stale_cleanup_family(run, n=4):
         core.rm_rf(scratch)
 
 
+def large_value_family(run, quick=True):
+    """values far above every buffer / block / threshold of the backends (tens of MiB): arrays of plain and of object dtype, a long byte string, a long list; dumped, loaded
+    back through a fresh store object - same type (exactly: an ndarray comes back as an ndarray, not as a view of a mapped file), dtype, shape, content; after a reopen too"""
+    scratch = core.scratch_dir()
+    try:
+        n = 2_200_000 if quick else 9_000_000
+        values = [('float64 array, %d MiB' % (n * 8 >> 20), np.arange(n, dtype='f8') * 0.5),
+                  ('int32 2-d array', (np.arange(n // 2, dtype='<i4') % 1000).reshape(-1, 4)),
+                  ('object array', np.array([('s%d' % (i % 7)) if i % 3 else i for i in range(n // 8)], dtype=object)),
+                  ('bytes', bytes(range(256)) * (n // 64)),
+                  ('list of ints', list(range(n // 4)))]
+        for kind in ('file', 'filez', 'redis', 'dictfile'):
+            d = os.path.join(scratch, 'large-' + kind)
+            os.makedirs(d, exist_ok=True)
+            cfg = Cfg(kind, d)
+            for j, (label, v) in enumerate(values):
+                if quick and kind in ('redis', 'dictfile') and j not in (0, 2):
+                    continue
+                key = keyname(j)
+                rp = {'kind': 'large-value', 'backend': kind, 'value': label}
+                run.case(('large', kind, label), nontrivial=True)
+                run.count('large_values')
+                try:
+                    w = cfg.open()
+                    w.dump(v, key)
+                    if kind == 'dictfile':
+                        w.close()
+                    r = cfg.open()
+                    got = r.load(key)
+                except Exception as e:
+                    run.fail('large-value-raises', '%s store: dump / load of a large value (%s) raised %s: %s' % (kind, label, type(e).__name__, str(e)[:200]), rp)
+                    continue
+                same = type(got) is type(v)
+                if same and isinstance(v, np.ndarray):
+                    same = got.dtype == v.dtype and got.shape == v.shape and (np.array_equal(got, v) if not v.dtype.hasobject else got.tolist() == v.tolist())
+                elif same:
+                    same = got == v
+                if not same:
+                    run.fail('large-value-differs', '%s store: a large value (%s, type %s) comes back as %s%s' % (kind, label, type(v).__name__, type(got).__name__,
+                                                                                                                  '' if type(got) is not type(v) else ' with other dtype / shape / content'), rp)
+                try:
+                    r.remove(key)
+                    if kind == 'dictfile':
+                        r.close()
+                except Exception:
+                    pass
+            core.rm_rf(d)
+    finally:
+        core.rm_rf(scratch)
+
+
 def replay(path, prop):
     d = json.load(open(path))
     print(d['what'][:800])
